@@ -358,7 +358,8 @@ def do_assemble_array(tree, out):
     need(U(arg) == "local_arr" and set(kw) == {"root"}, val, "expected mpi.comm.bcast(local_arr, root=...)")
     root, _ = pure(kw["root"], {"i": "N", "size": "N"}, "N")
     text_is(b[6], "assert np.all(global_arr > 0), global_arr")
-    text_is(b[7], "return global_arr")
+    # bool - 1 is int64: the result is handed back in the element type every rank put in (like assemble_striped_ragged_array)
+    text_is(b[7], "return global_arr.astype(local_arr.dtype, copy=False)")
     out += ["(* ---- %s: assemble_striped_array *)" % OPS,
             "Definition gen_asa_trivial (size : nat) : bool := %s." % triv,
             "Definition gen_asa_total (locals : list (list nat)) : nat :=",
